@@ -439,6 +439,17 @@ def run(ctx):
     ctx.notes.append("reader: %d texts, %d skipped as using syntax outside the independent evaluator, %d repository inputs "
                      "over 300 kB skipped in this tier" % (len(rmeta), unsupported, skipped_big))
 
+    # ---- an input file denoting no game at all, saved over the report of an earlier, bigger run: the report is the (empty)
+    # sequence of this run's blocks, not yesterday's
+    re_ = impl.run_cases([dict(op="report", games=enc({}), text="{}", path="inputs/empty_batch.py", scratch=SCRATCH,
+                               stale_out="empty_batch.txt", limit=30)], tag="c16e")[0]
+    ctx.evaluations += 1
+    ctx.count("empty batch over a stale report")
+    if "ok" not in re_ or re_.get("files") != ["empty_batch.txt"] or (re_.get("text") or "") != "":
+        ctx.violation("a file denoting no game, saved with an older report of the same name present: files %s, report %r (expected an "
+                      "empty outputs/empty_batch.txt)" % (re_.get("files"), (re_.get("text") or "")[:80] if "ok" in re_ else re_),
+                      dict(text="{}", path="inputs/empty_batch.py", stale_report=True))
+
     # ---- command line
     for k in range(0, len(rcli), 2):
         ctx.evaluations += 1
